@@ -67,6 +67,16 @@ theorem leaf_call_keeps_shutter (t : Tree) (fuel : Nat) (body : List Stmt) (hl :
   leaf_keeps_shutter _ (fun σ w => stepT_flat t fuel σ _ (by intro p hp; cases hp) (by intro k p hp; cases hp))
     (fun σ => stepT_flat t fuel σ _ (by intro p hp; cases hp) (by intro k p hp; cases hp)) body hl σ
 
+/-- the tree controller is a conservative extension of the single-file reference controller of C01 / C03 / C12: with calls
+recorded instead of executed it produces exactly that controller's state and events -/
+theorem single_file_view (ss : List Stmt) (σ : St) :
+    execStmtsG stepFlat ss σ = ((execStmts ss σ).1, (execStmts ss σ).2.map .ev) := execStmtsG_flat ss σ
+
+theorem flatten_own_events (l : List Ev) : flattenT (l.map .ev) = l := by
+  induction l with
+  | nil => simp [flattenT]
+  | cons e r ih => simp [flattenT, ih]
+
 /-- non-vacuity: a calling file of the shape the trench writer emits passes the check, a positioning move under an open
 shutter does not -/
 example : disciplined (fun k => k == "w") [.atom (.load 2 "d/w.pgm"), .atom (.g1 { x := some 1, y := some 2, z := some 0, f := some 5 }),
